@@ -32,7 +32,7 @@ fn needs_cluster(raw: u64, cb: u32, has_back: bool) -> bool {
 // @funcs Qcow2Dev::__make_multiple_write_mapping (whole body) Qcow2Dev::need_make_mapping L2Table::{get_mapping,get_entry,map_cluster}
 // @stub alloc::fmt::format -> String::new()
 #[kani::proof]
-#[kani::unwind(6)]
+#[kani::unwind(10)]
 #[kani::stub(std::fmt::format, fmt_stub2)]
 fn c01_multi_write_mapping() {
     let cb = 16u32;
@@ -60,7 +60,8 @@ fn c01_multi_write_mapping() {
     let start = (slice_base + first) << cb;
     let end = start + want * cs;
     let host: u64 = kani::any();
-    kani::assume(host != 0 && host & (cs - 1) == 0 && host >> 56 == 0);
+    // the whole granted run lies below 2^56 (host offsets an L2 entry can hold)
+    kani::assume(host != 0 && host & (cs - 1) == 0 && host >> 55 == 0);
     env.alloc_off = host;
     let granted: usize = kani::any();
     kani::assume(granted >= 1 && granted <= 4);
